@@ -27,8 +27,27 @@ theorem Fine.mono {filt : Nat → List Nat} {P Q : Nat → Prop} (h : ∀ r, P r
   | get T r k hr _ ih => exact .get T r k (h r hr) ih
   | data r fs k hf _ ih => exact .data r fs k hf ih
 
+theorem Fine.discard {filt : Nat → List Nat} {P : Nat → Prop} {q : Prog V E} (hq : Fine filt P q)
+    (x : Res V E) (hx : x ≠ .oof) : Fine filt P (discard q x) := by
+  induction hq with
+  | ret y _ => exact .ret x hx
+  | get T r k hr _ ih => exact .get T r _ hr fun y hy => ih y hy
+  | data r fs k hf _ ih => exact .data r fs _ hf fun y hy => ih y hy
+
+theorem Fine.orLog {filt : Nat → List Nat} {P : Nat → Prop} {p q : Prog V E} (hp : Fine filt P p)
+    (hq : Fine filt P q) : Fine filt P (orLog p q) := by
+  induction hp with
+  | ret x hx =>
+    cases x with
+    | ok v => exact .ret _ hx
+    | err e => exact hq.discard _ (by simp)
+    | oof => exact absurd rfl hx
+  | get T r k hr _ ih => exact .get T r _ hr fun y hy => ih y hy
+  | data r fs k hf _ ih => exact .data r fs _ hf fun y hy => ih y hy
+
 structure WF (d : Doc V E) (filt : Nat → List Nat) (rank : Nat → Nat) : Prop where
   body : ∀ T r, Fine filt (fun r' => rank r' < rank r) (d.body T r)
+  relog : ∀ r, Fine filt (fun r' => rank r' < rank r) (d.relog r)
   dec : ∀ r fs, d.decode r fs ≠ .oof
 
 /-- the uncached, unguarded answer of `get::<T>(r)` -/
@@ -88,6 +107,42 @@ theorem canon_ne_oof {filt : Nat → List Nat} {P : Nat → Prop} (d : Doc V E) 
     | err e => exact ih _ (by simp)
   | data r fs k _ _ ih =>
     simp only [canon]
+    exact ih _ (hd r fs)
+
+theorem canon_discard {filt : Nat → List Nat} {P : Nat → Prop} (d : Doc V E) (a : Nat → Nat → Res V E)
+    {q : Prog V E} (hq : Fine filt P q) (h : ∀ T r, P r → a T r ≠ .oof) (hd : ∀ r fs, d.decode r fs ≠ .oof)
+    (x : Res V E) : canon a d (discard q x) = x := by
+  induction hq with
+  | ret y _ => rfl
+  | get T r k hr _ ih =>
+    simp only [discard, canon]
+    have := h T r hr
+    cases hx : a T r with
+    | oof => exact absurd hx this
+    | ok v => exact ih _ (by simp)
+    | err e => exact ih _ (by simp)
+  | data r fs k _ _ ih =>
+    simp only [discard, canon]
+    exact ih _ (hd r fs)
+
+/-- the extra `resolve` of a failed load changes nothing in the answer -/
+theorem canon_orLog {filt : Nat → List Nat} {P : Nat → Prop} (d : Doc V E) (a : Nat → Nat → Res V E)
+    {p q : Prog V E} (hp : Fine filt P p) (hq : Fine filt P q) (h : ∀ T r, P r → a T r ≠ .oof)
+    (hd : ∀ r fs, d.decode r fs ≠ .oof) : canon a d (orLog p q) = canon a d p := by
+  induction hp with
+  | ret x hx =>
+    cases x with
+    | ok v => rfl
+    | err e => exact canon_discard d a hq h hd _
+    | oof => exact absurd rfl hx
+  | get T r k hr _ ih =>
+    simp only [orLog, canon]
+    cases hx : a T r with
+    | oof => rfl
+    | ok v => exact ih _ (by simp)
+    | err e => exact ih _ (by simp)
+  | data r fs k _ _ ih =>
+    simp only [orLog, canon]
     exact ih _ (hd r fs)
 
 theorem ans_ne_oof {d : Doc V E} {filt : Nat → List Nat} {rank : Nat → Nat} (wf : WF d filt rank) :
@@ -210,11 +265,19 @@ theorem getM_spec {d : Doc V E} {filt : Nat → List Nat} {rank : Nat → Nat} (
           · omega
           · have := hc c hcm; omega) hi
     rw [← ans_eq wf] at hR
+    have hC := run_spec cfg wf.dec (ih.mono (by omega : rank r ≤ f)) ((wf.body T r).orLog (wf.relog r)) (r :: ch) st
+      (by intro c hcm; simp at hcm; rcases hcm with rfl | hcm
+          · omega
+          · have := hc c hcm; omega) hi
+    rw [show orLog (d.body T r) (d.relog r) = d.compute T r from rfl,
+        show canon (ans d rank) d (d.compute T r) = ans d rank T r from by
+          rw [ans_eq wf T r]
+          exact canon_orLog d _ (wf.body T r) (wf.relog r) (fun T' r' h' => ans_ne_oof wf (rank r) r' T' h') wf.dec] at hC
     simp only [getM, hnot, if_false]
     split
     · -- object cache on
       cases hl : st.obj.lookup r with
-      | none => exact store_spec hR.2 r T _ hR.1
+      | none => exact store_spec hC.2 r T _ hC.1
       | some e =>
         cases e with
         | val T' v =>
@@ -225,6 +288,6 @@ theorem getM_spec {d : Doc V E} {filt : Nat → List Nat} {rank : Nat → Nat} (
         | err e =>
           simp only [ht]
           exact hR
-    · exact hR
+    · exact hC
 
 end Cache
